@@ -52,8 +52,11 @@ MAX_UNROLL = 400
 MAX_DEPTH = 60
 
 
+_FRAME_IDS = __import__("itertools").count(1)
+
+
 class Frame:
-    __slots__ = ("vars", "func", "module", "cls", "is_harness", "loopno", "entry")
+    __slots__ = ("vars", "func", "module", "cls", "is_harness", "loopno", "entry", "fid", "has_closures")
 
     def __init__(self, vars, func, module, cls=None, is_harness=False):
         self.vars = vars
@@ -63,11 +66,15 @@ class Frame:
         self.is_harness = is_harness
         self.loopno = 0
         self.entry = None
+        self.fid = next(_FRAME_IDS)  # identity of this activation (kept by copy(): the same activation on a forked path)
+        self.has_closures = False  # a lambda / nested def was created in this activation (its variables outlive it)
 
     def copy(self):
         f = Frame(dict(self.vars), self.func, self.module, self.cls, self.is_harness)
         f.loopno = self.loopno
         f.entry = self.entry
+        f.fid = self.fid
+        f.has_closures = self.has_closures
         return f
 
 
@@ -477,8 +484,10 @@ class Interp:
         fr = st.frame
         if name in fr.vars:
             return fr.vars[name]
-        if fr.func is not None and fr.func.closure is not None and name in fr.func.closure:
-            return fr.func.closure[name]
+        if fr.func is not None and fr.func.closure is not None:
+            found, v = self.closure_lookup(fr.func, name, st)
+            if found:
+                return v
         if fr.is_harness and name in self.extra_globals:
             return self.thaw_global(self.extra_globals[name], st)
         mi = fr.module
@@ -495,6 +504,67 @@ class Interp:
         if name in self.builtins:
             return self.builtins[name]
         raise Unsupported("unbound name %s in %s" % (name, fr.func))
+
+    def env_of(self, st, fid):
+        """variables of the activation `fid`: the live frame if it is still on the stack, what it held when it returned
+        if a closure was created in it (pop_frame), else None"""
+        for fr in reversed(st.frames):
+            if fr.fid == fid:
+                return fr.vars
+        return st.ghost.get(("env", fid))
+
+    def pop_frame(self, st):
+        fr = st.frames.pop()
+        if fr.has_closures:
+            st.ghost[("env", fr.fid)] = fr.vars  # cells outlive the activation: closures created in it still read them
+        return fr
+
+    def closure_lookup(self, func, name, st):
+        """free variable `name` of a lambda / nested def -> (found, value).  A CPython closure refers to the VARIABLE of the
+        enclosing activation (a cell), not to the value it had when the function was defined: a later rebinding is seen
+        (`x = 1; f = lambda: x; x = 2; f()` is 2; every `lambda: i` made in a `for i` loop sees the last i).  The snapshot
+        taken at definition time (func.closure) is only used when the defining activation is unknown."""
+        fid = getattr(func, "def_fid", None)
+        env = self.env_of(st, fid) if fid is not None else None
+        if env is None:
+            if name in func.closure:
+                if fid is not None:
+                    raise Unsupported("closure variable %s: the defining activation is not available" % name)
+                return True, func.closure[name]
+            return False, None
+        comp = getattr(func, "comp_snapshot", None)
+        if comp and name in comp:
+            # a variable of a comprehension that was running when the function was created: it has its own cell in CPython;
+            # the model keeps it in the enclosing frame only while the comprehension runs - exact while it still holds
+            # the value it had at creation, refused otherwise
+            if name in env and env[name] is comp[name]:
+                return True, env[name]
+            raise Unsupported("closure over the comprehension variable %s is called after the variable changed" % name)
+        if name in env:
+            return True, env[name]
+        parent = getattr(func, "def_func", None)
+        if parent is not None and parent.closure is not None:
+            return self.closure_lookup(parent, name, st)
+        return False, None
+
+    def _new_closure(self, fv, st):
+        """record where a lambda / nested def was created and evaluate its parameter defaults NOW (CPython evaluates them
+        when the def / lambda expression is executed, once)"""
+        fr = st.frame
+        fr.has_closures = True
+        fv.def_fid = fr.fid
+        fv.def_func = fr.func
+        names = st.ghost.get("__comp_names__")
+        if names:
+            fv.comp_snapshot = {n: fr.vars[n] for n in names if n in fr.vars}
+        a = fv.node.args
+        fv.defaults = {}
+        for d in list(a.defaults) + [d for d in a.kw_defaults if d is not None]:
+            outs = list(self.ev(d, st))
+            if len(outs) != 1 or isinstance(outs[0][1], Exc) or outs[0][0] is not st:
+                raise Unsupported("default argument expression of a nested function forks or raises")
+            fv.defaults[id(d)] = outs[0][1]
+        return fv
 
     # ------------------------------------------------------------------ classes
     def bases(self, cls):
@@ -964,7 +1034,7 @@ class Interp:
     def ev_Lambda(self, node, st):
         fv = FuncVal(node, st.frame.module, st.frame.cls, closure=self.closure_of(st), name="<lambda>")
         fv.lexcls = self.lexical_class_name(st)
-        yield st, fv
+        yield st, self._new_closure(fv, st)
 
     def closure_of(self, st):
         c = {}
@@ -1412,6 +1482,10 @@ class Interp:
         for k in getattr(saved, "targets", ()):
             if k in saved:
                 st.frame.vars[k] = saved[k]
+        if getattr(saved, "outer_comp", None):
+            st.ghost["__comp_names__"] = saved.outer_comp
+        else:
+            st.ghost.pop("__comp_names__", None)
 
     @staticmethod
     def _comp_saved(node, st):
@@ -1427,6 +1501,8 @@ class Interp:
                 if isinstance(n, ast.Name):
                     names.add(n.id)
         saved.targets = names
+        saved.outer_comp = st.ghost.get("__comp_names__")
+        st.ghost["__comp_names__"] = frozenset(names) | (saved.outer_comp or frozenset())  # see closure_lookup
         return saved
 
     def ev_GeneratorExp(self, node, st):
@@ -1692,17 +1768,26 @@ class Interp:
         return vars, None
 
     def eval_default(self, f, expr, st):
-        st0 = St()
-        st0.nid = st.nid
-        st0.frames.append(Frame(dict(f.closure or {}), None, f.module))
-        outs = list(self.ev(expr, st0))
-        if len(outs) != 1 or isinstance(outs[0][1], Exc):
+        """value of a parameter default.  CPython evaluates the default expression ONCE (when the `def` runs) and every
+        call that omits the argument receives that same object: a mutable default (`acc=[]`) is shared across calls and
+        keeps what earlier calls put into it.  Model: evaluated at the first use on a path, in the state of that path (so
+        nested containers live in its store), and remembered per path under (function, default expression)."""
+        if id(expr) in getattr(f, "defaults", ()):
+            return f.defaults[id(expr)]  # lambda / nested def: evaluated when the definition was executed (_new_closure)
+        key = ("default", id(f.node), id(expr))
+        if key in st.ghost:
+            return st.ghost[key]
+        st.frames.append(Frame(dict(f.closure or {}), None, f.module))
+        try:
+            outs = list(self.ev(expr, st))
+        finally:
+            st.frames.pop()
+        if len(outs) != 1 or isinstance(outs[0][1], Exc) or outs[0][0] is not st:
             raise Unsupported("default argument expression")
         v = outs[0][1]
-        if isinstance(v, Ref):
-            # mutable default: fresh copy per call is a deviation only if the code mutates it
-            e = outs[0][0].get(v)
-            return st.alloc(e.copy())
+        st.ghost[key] = v
+        self._default_keep = getattr(self, "_default_keep", [])
+        self._default_keep.append(f.node)  # keep the node alive: its id is part of the key
         return v
 
     def call_func(self, f, args, kwargs, st, node=None):
@@ -1720,7 +1805,7 @@ class Interp:
                 return
             st.frames.append(Frame(vars, f, f.module, f.cls))
             for st1, v in list(self.ev(f.node.body, st)):
-                st1.frames.pop()
+                self.pop_frame(st1)
                 yield st1, v
             return
         if len(st.frames) > MAX_DEPTH:
@@ -1742,7 +1827,7 @@ class Interp:
         fr.entry = dict(vars)
         st.frames.append(fr)
         for st1, ctrl in self.ex_block(f.node.body, st):
-            st1.frames.pop()
+            self.pop_frame(st1)
             if ctrl is None:
                 yield st1, None
             elif ctrl[0] == "return":
@@ -2257,7 +2342,7 @@ class Interp:
     def ex_FunctionDef(self, node, st):
         fv = FuncVal(node, st.frame.module, None, closure=self.closure_of(st))
         fv.lexcls = self.lexical_class_name(st)
-        st.frame.vars[node.name] = fv
+        st.frame.vars[node.name] = self._new_closure(fv, st)
         yield st, None
 
     def ex_For(self, node, st):
